@@ -32,74 +32,98 @@ class CM:
 
 
 class Target:
-    """the racing target:  while flag: with CM(): a(); b()  /  c()   -- each call is a checkpoint"""
+    """the racing target:  while flag: with CM(): gate(); gate()  /  gate()
+    Every checkpoint is a C-level blocking call (lock.acquire) made DIRECTLY by the inspected frame, so that the frame
+    is 'executing' in the interpreter's sense (stacktop == -1; a call to a Python function would be inlined and leave
+    a saved stacktop) and the snapshot code has to trim the value stack by the handler depth of f_lasti."""
 
     def __init__(self):
-        self.cv = threading.Condition()
-        self.pos = 0
-        self.arrivals = 0
-        self.permits = 0
+        self.gate = threading.Lock()
+        self.gate.acquire()
         self.flag = True
         self.frame = None
         self.it = 0
+        self.in_body = False
+        self.left_body = False
+        self.offsets = self.acquire_offsets()
+        self.next = 0
         self.thread = threading.Thread(target=self.runner, daemon=True)
 
-    def checkpoint(self, pos):
-        with self.cv:
-            self.pos = pos
-            self.arrivals += 1
-            self.cv.notify_all()
-            while self.permits == 0:
-                if not self.cv.wait(TIMEOUT * 6):
-                    raise Stuck("target not released at %s" % pos)
-            self.permits -= 1
-            self.pos = 0
-
-    def a(self):
-        if self.frame is None:
-            self.frame = sys._getframe(1)
-        self.checkpoint(1)
-
-    def b(self):
-        self.checkpoint(2)
-
-    def c(self):
-        self.checkpoint(3)
+    @staticmethod
+    def acquire_offsets():
+        import dis
+        ins = list(dis.get_instructions(Target.body))
+        offs = []
+        for k, x in enumerate(ins):
+            if x.opname in ("CALL", "CALL_METHOD", "CALL_FUNCTION") and k > 0:
+                back = [y for y in ins[max(0, k - 4):k] if y.opname in ("LOAD_ATTR", "LOAD_METHOD")]
+                if back and back[-1].argval == "acquire":
+                    offs.append(x.offset)
+        assert len(offs) == 3, offs
+        return offs
 
     def body(self):
+        self.frame = sys._getframe(0)
         while self.flag:
             self.it += 1
             with CM(self.it):
-                self.a()
-                self.b()
-            self.c()
+                self.gate.acquire()
+                self.gate.acquire()
+            self.gate.acquire()
 
     def runner(self):
         self.body()
-        self.checkpoint(9)
+        self.left_body = True
+        self.gate.acquire()
 
-    def advance(self):
-        """release the target from its checkpoint and wait until it reaches the next one (or exits)"""
-        with self.cv:
-            seen = self.arrivals
-            self.permits += 1
-            self.cv.notify_all()
+    def at(self):
+        """which checkpoint the target is blocked at: 1, 2, 3 (inside body), 9 (body returned), 0 (in between)"""
+        if self.left_body:
+            return 9
+        fr = self.frame
+        if fr is None:
+            return 0
+        li = fr.f_lasti
+        for k, o in enumerate(self.offsets):
+            # f_lasti rests on the CALL or on one of its inline cache entries while the C function runs
+            if o <= li <= o + 8:
+                return k + 1
+        return 0
+
+    def wait_pos(self, want=None):
         deadline = time.time() + TIMEOUT
         while time.time() < deadline:
-            with self.cv:
-                if self.arrivals > seen and self.pos != 0:
-                    return self.pos
+            p = self.at()
+            if p != 0 and (want is None or p == want):
+                # the call has begun; give the C function the time to block (it holds no Python-level state)
+                time.sleep(0.002)
+                return p
             if not self.thread.is_alive():
                 return "exited"
             time.sleep(0.0003)
-        raise Stuck("target did not reach a checkpoint")
+        raise Stuck("target did not reach a checkpoint (at %s, want %s)" % (self.at(), want))
 
-    def wait_pos(self):
-        with self.cv:
-            ok = self.cv.wait_for(lambda: self.pos != 0, TIMEOUT)
-        if not ok:
-            raise Stuck("target did not start")
-        return self.pos
+    def advance(self):
+        """release the target from its checkpoint and wait until it is blocked at the next one (or has exited)"""
+        cur = self.at()
+        if cur == 9:
+            self.gate.release()
+            self.thread.join(TIMEOUT)
+            return "exited"
+        if cur == 3:
+            nxt = 1 if self.flag else 9
+        else:
+            nxt = cur + 1
+        it0 = self.it
+        self.gate.release()
+        deadline = time.time() + TIMEOUT
+        while time.time() < deadline:
+            p = self.at()
+            if p == nxt and (nxt != 1 or self.it > it0):
+                time.sleep(0.002)
+                return p
+            time.sleep(0.0003)
+        raise Stuck("target did not reach checkpoint %s (at %s)" % (nxt, self.at()))
 
 
 class Inspector:
@@ -165,7 +189,7 @@ def replay_snapshot(beh, max_attempts=10):
     bad = []
     tgt = Target()
     tgt.thread.start()
-    tgt.wait_pos()          # at pos 1, frame known
+    tgt.wait_pos(1)         # blocked at checkpoint 1, frame known
     insp = Inspector(tgt.frame)
     _verif.sink = insp.sink
     insp.thread.start()
@@ -184,7 +208,6 @@ def replay_snapshot(beh, max_attempts=10):
                     bad.append("step %d TFinish: target at %s" % (k, p))
             elif a == "TExit":
                 tgt.advance()
-                tgt.thread.join(TIMEOUT)
                 if tgt.thread.is_alive():
                     bad.append("step %d TExit: thread did not exit" % k)
             else:
@@ -226,16 +249,21 @@ def replay_snapshot(beh, max_attempts=10):
         _verif.sink = None
         # let both threads finish
         tgt.flag = False
-        for _ in range(6):
-            with tgt.cv:
-                tgt.permits += 1
-                tgt.cv.notify_all()
+        for _ in range(8):
             with insp.cv:
                 insp.permits += 1
                 insp.cv.notify_all()
             time.sleep(0.001)
-        tgt.thread.join(2)
         insp.thread.join(2)
+        for _ in range(8):
+            if not tgt.thread.is_alive():
+                break
+            try:
+                tgt.gate.release()
+            except RuntimeError:
+                pass
+            time.sleep(0.003)
+        tgt.thread.join(2)
     return bad
 
 
